@@ -101,8 +101,8 @@ _norm_data = calls.norm_data
 # Arrays are built by harness/c17_calls.py (several construction paths, verified content); the functions under test
 # are called by `calls.invoke` the way the request says (keywords, or the first k optional arguments positionally
 # in the documented order).
-def _mk(coords, data, step_attr, layout="1d", int_axis=False, int_data=False, dim="time", build="time_dim"):
-    return calls.make_array(coords, data, step_attr, layout, int_axis, int_data, dim, build)
+def _mk(coords, data, step_attr, layout="1d", int_axis=False, int_data=False, dim="time", build="time_dim", data_dtype=None):
+    return calls.make_array(coords, data, step_attr, layout, int_axis, int_data, dim, build, data_dtype=data_dtype)
 
 
 def _out(arr, layout="1d", dim="time"):
@@ -246,7 +246,7 @@ def _free_axis(inp):
     a0, step, n = f(inp["a0"]), f(inp["step"]), inp["n"]
     coords = a0 + step * np.arange(n)
     return coords, _mk(coords, _free_data(inp), step if inp["attr"] else None, inp.get("layout", "1d"),
-                       build=inp.get("build", "time_dim"))
+                       build=inp.get("build", "time_dim"), data_dtype=inp.get("data_dtype"))
 
 
 def _free_result(o, coords):
@@ -437,7 +437,8 @@ def _s_snapshot(args):
 
 
 def _same_shape(a, b):
-    return all(a.get(k, d) == b.get(k, d) for k, d in (("layout", "1d"), ("dim", "time"), ("int_axis", False), ("int_data", False))) \
+    return all(a.get(k, d) == b.get(k, d) for k, d in (("layout", "1d"), ("dim", "time"), ("int_axis", False), ("int_data", False),
+                                                    ("data_dtype", None))) \
         and len(a["coords"]) == len(b["coords"]) and not a.get("f32_axis") and not b.get("f32_axis")
 
 
@@ -454,7 +455,7 @@ def _s_modify(args, inp, how):
     dim, layout = inp.get("dim", "time"), inp.get("layout", "1d")
     arr = args["arr"]
     fresh = calls.make_array(fl(inp["coords"]), inp["data"], f(inp.get("step_attr")), layout, inp.get("int_axis", False),
-                             inp.get("int_data", False), dim, "plain")
+                             inp.get("int_data", False), dim, "plain", data_dtype=inp.get("data_dtype"))
     c = np.asarray(fresh.coords[dim].values)
     attrs = {} if inp.get("step_attr") is None else {"step": f(inp["step_attr"])}
     if how == "deep_copy":
@@ -923,7 +924,11 @@ def _axis(rng, n, k=None):
     return a0, step, [a0 + i * step for i in range(n)]
 
 
-FILLS = [0, 0, -9, 77, "nan", "inf", "-inf"]
+# every kind of fill value: integral, fractional (dyadic and not: 1e-3 is the binary64 number), NaN, +-inf
+FRACTIONAL_FILLS = ["1/2", "-9/4", rat(1e-3)]
+FILLS = [0, 0, -9, 77, "nan", "inf", "-inf"] + FRACTIONAL_FILLS
+FILL_KINDS = [0, -9, 77, "nan", "inf", "-inf"] + FRACTIONAL_FILLS
+_fill_fits = calls.fill_fits
 
 
 def _cells(rng, n, k, fill):
@@ -957,9 +962,16 @@ def _base(rng, coords, step, attr=None, layout=None, fill=0):
          "layout": layout}
     if rng.random() < 0.15:
         b["argty"] = rng.choice(["np", "int"])
-    if rng.random() < 0.1 and all(isinstance(c, int) for row in _norm_data(b["data"], layout) for c in row) \
-            and (fill is None or isinstance(fill, int)):
-        b["int_data"] = True
+    if rng.random() < 0.2 and all(isinstance(c, int) for row in _norm_data(b["data"], layout) for c in row):
+        # integer-typed / single-precision data with *every* kind of fill value (fractional, NaN, +-inf, integral):
+        # the new samples must hold the fill value, whatever type the result needs for that
+        r = rng.random()
+        if r < 0.3:
+            b["int_data"] = True
+        else:
+            dt = rng.choice(["int16", "int32", "int64", "float32"])
+            if _fill_fits(dt, fill):
+                b["data_dtype"] = dt
     return b
 
 
@@ -1216,8 +1228,8 @@ def _history_cases(ctx, count):
             steps.append(st)
             if kmax < kmin or (kmax == kmin and b["step_attr"] is None):
                 break
-        if b.get("int_data") and any(not isinstance(st.get("fill", 0), int) for st in steps):
-            b.pop("int_data")
+        if not all(_fill_fits(b.get("data_dtype"), st.get("fill")) for st in steps):
+            b.pop("data_dtype")
         if len(steps) >= 2:
             b["steps"] = steps
             ctx.tally(f"history:{len(steps)}-calls")
@@ -1282,7 +1294,7 @@ def _range_cases(ctx):
 
 FREE_STEPS = [0.01, 1 / 3, 0.004, 1 / 44100, 0.1, 1e-3, 0.25, 1 / 22050, 0.3, 2.5]
 FREE_STARTS = [0.0, 0.3, 12.7, 2.0, 100.03]
-FREE_FILLS = [0, -9, "nan", "inf"]
+FREE_FILLS = [0, -9, "nan", "inf", "-inf"] + FRACTIONAL_FILLS
 
 
 def _free_cells(rng, n, fill):
@@ -1313,6 +1325,16 @@ def _width_free_cases(ctx):
                "argty": "np" if rng.random() < 0.2 else None, "build": rng.choice(["time_dim", "time_dim"] + calls.BUILDS[1:])}
 
 
+def _free_typed(rng, cases):
+    """the ramp 1..n stored as int16 / int32 / int64 / float32 data in some of the free-mode cases"""
+    for c in cases:
+        if c.get("data") is None and rng.random() < 0.35:
+            dt = rng.choice(["int16", "int32", "int64", "float32"])
+            if _fill_fits(dt, c.get("fill")):
+                c["data_dtype"] = dt
+        yield c
+
+
 def _inside_quantifier(c):
     """an open end must lie strictly beyond the axis end (the requested interval contains the axis)"""
     if not c["lc"] and c["kl2"] == 0:
@@ -1323,7 +1345,7 @@ def _inside_quantifier(c):
 
 
 def _extend_free_cases(ctx):
-    for c in _extend_free_raw(ctx):
+    for c in _free_typed(ctx.rng, _extend_free_raw(ctx)):
         yield _inside_quantifier(c)
 
 
@@ -1495,7 +1517,7 @@ def _product_cases(ctx):
         b["dim"] = calls.DIMS[(rot[0] // 4) % 3]
         return b
 
-    fills = [0, -9, 77, "nan", "inf", "-inf"]
+    fills = FILL_KINDS
     for n in (1, 2, 5, 6):
         a0, step, coords = _axis(rng, n, 2)
         for w in sorted({1, max(n - 1, 1), n, n + 1, n + 2, n + 3, 2 * n, 2 * n + 1}):
@@ -1537,6 +1559,71 @@ def _product_cases(ctx):
     for op, cs in out.items():
         ctx.tally("option-product:" + op, len(cs))
     return out
+
+
+# ------------------------------------------------------------------ data types x fill values
+def _dtype_fill_cases(ctx):
+    """every data type (int16 / int32 / int64 / bool / float32 / float64) x every kind of fill value (integral,
+    fractional, NaN, +-inf) x every function that fills (extend_dim, extend_dim_width, adjust_dim_width at the three
+    positions) and every function that does not (crop_dim, crop_dim_width, adjust_dim_width narrowing / same width).
+    The property pins the cell values - every new sample holds the fill value, every original sample stays on its
+    coordinate - not the data type of the result: values are compared numerically."""
+    rng = ctx.rng
+    out = {"crop_dim": [], "extend_dim": [], "width": [], "history": []}
+    rot = 0
+    for dt in calls.DATA_DTYPES + [None]:
+        for fill in FILL_KINDS:
+            if not _fill_fits(dt, fill):
+                ctx.tally("dtype-fill:not-representable-in-float32")
+                continue
+            rot += 1
+            n = (3, 4, 5)[rot % 3]
+            a0, step, coords = _axis(rng, n, rot % 3)
+            layout, dim = LAYOUTS[rot % 4], calls.DIMS[(rot // 4) % 3]
+            k = _ncols(layout)
+            if dt == "bool":
+                data = [[(i + j) % 2 for j in range(k)] if k > 1 else i % 2 for i in range(n)]
+            else:
+                data = [[(i + 1) + 100 * j for j in range(k)] if k > 1 else i + 1 for i in range(n)]
+            b = {"coords": rats(coords), "data": data, "layout": layout, "dim": dim}
+            if dt is not None:
+                b["data_dtype"] = dt
+            ctx.tally(f"dtype-fill:{dt or 'float64'}")
+            half = Fraction(1, 2)
+            for attr, (s, e, lc, rc) in zip((True, False, True), [(coords[0] - (2 + half) * step, coords[-1] + (1 + half) * step, True, False),
+                                                                  (None, coords[-1] + 2 * step, True, True),
+                                                                  (coords[0] - step, None, True, False)]):
+                out["extend_dim"].append(dict(b, step_attr=rat(step) if attr else None, start=None if s is None else rat(s),
+                                              stop=None if e is None else rat(e), lc=lc, rc=rc, eps=None, fill=fill,
+                                              call=rng.choice([None, None, 3, 6])))
+            for pos in ("start", "center", "end"):
+                out["width"].append(dict(b, step_attr=rat(step), fn="extend", w=n + 3, fill=fill, pos=pos))
+                out["width"].append(dict(b, step_attr=None, fn="adjust", w=n + 2, fill=fill, pos=pos, call=rng.choice([None, 2, 3])))
+            out["width"].append(dict(b, step_attr=rat(step), fn="adjust", w=n, fill=fill, pos="center"))
+            out["width"].append(dict(b, step_attr=rat(step), fn="adjust", w=n - 1, fill=fill, pos="end"))
+            out["width"].append(dict(b, step_attr=None, fn="crop", w=n - 1, fill=None, pos="center"))
+            out["crop_dim"].append(dict(b, step_attr=None, start=rat(coords[1]), stop=rat(coords[-1]), lc=True, rc=rot % 2 == 0, eps=None))
+            # a chain: the first call may change the data type of the array, the second fills again
+            other = FILL_KINDS[(rot * 5) % len(FILL_KINDS)]
+            if _fill_fits(dt, other):
+                out["history"].append(dict(b, step_attr=rat(step), steps=[
+                    {"fn": "extend_dim", "start": rat(coords[0] - step), "stop": rat(coords[-1] + step * half), "lc": True, "rc": False,
+                     "fill": fill, "eps": None},
+                    {"fn": "width", "w": n + 4, "fill": other, "pos": ("start", "center", "end")[rot % 3]},
+                    {"fn": "crop_dim", "start": rat(coords[0] - step), "stop": rat(coords[-1] + 2 * step), "lc": True, "rc": True, "eps": None}]))
+    for op, cs in out.items():
+        ctx.tally("dtype-fill:" + op, len(cs))
+    return out
+
+
+def _stage_dtype_fill(ctx):
+    groups = _dtype_fill_cases(ctx)
+    _run_by_op(ctx, groups)
+    ctx.run_cases(OPS["history"], groups["history"])
+    ctx.exhaustive["dtype-fill"] = (f"data types {calls.DATA_DTYPES + ['float64']} x fill values {FILL_KINDS} (float32 data only with fill "
+                                    "values float32 can hold) x extend_dim (3 requests), extend_dim_width / adjust_dim_width widening x "
+                                    "start / center / end, adjust_dim_width same width / narrowing, crop_dim_width, crop_dim, and one "
+                                    "3-call chain extend_dim -> adjust_dim_width -> crop_dim")
 
 
 # ------------------------------------------------------------------ boundaries and sizes (HISTORIES.md section 4)
@@ -1665,7 +1752,8 @@ def _session_variants(x, rng):
     fname = _SESSION_FN[fn]
     v(call=rng.choice(list(range(calls.n_optional(fname) + 1))) if x.get("call") is None else None)
     v(dim=rng.choice([dn for dn in calls.DIMS if dn != x.get("dim", "time")]))
-    return [y for y in out if not (y["fn"] != "crop_dim" and len(y["coords"]) < 2 and y.get("step_attr") is None)]
+    return [y for y in out if not (y["fn"] != "crop_dim" and len(y["coords"]) < 2 and y.get("step_attr") is None)
+            and _fill_fits(y.get("data_dtype"), y.get("fill"))]
 
 
 def _session_cases(ctx, count):
@@ -1835,12 +1923,13 @@ def run(ctx):
     ctx.stage("extend-exact", lambda: ctx.run_cases(OPS["extend_dim"], _styled(ctx, "extend_dim", _extend_cases(ctx, ctx.budget(25, 200)))))
     ctx.stage("paths-exact", _stage_paths, ctx)
     ctx.stage("products-exact", _stage_products, ctx)
+    ctx.stage("dtype-fill-exact", _stage_dtype_fill, ctx)
     ctx.stage("boundaries-exact", _stage_boundaries, ctx)
     ctx.stage("history-exact", lambda: ctx.run_cases(OPS["history"], _history_cases(ctx, ctx.budget(700, 6000))))
     ctx.stage("sessions-exact", _stage_sessions, ctx)
     ctx.stage("step-exact", lambda: ctx.run_cases(OPS["dim_step"], _step_cases(ctx)))
     ctx.stage("range-exact", lambda: ctx.run_cases(OPS["dim_range"], _range_cases(ctx)))
-    ctx.stage("width-free-monitor", lambda: ctx.run_cases(OPS["width_free"], _width_free_cases(ctx)))
+    ctx.stage("width-free-monitor", lambda: ctx.run_cases(OPS["width_free"], _free_typed(ctx.rng, _width_free_cases(ctx))))
     ctx.stage("extend-free-monitor", lambda: ctx.run_cases(OPS["extend_free"], _extend_free_cases(ctx)))
     ctx.stage("crop-free-monitor", lambda: ctx.run_cases(OPS["crop_free"], _crop_free_cases(ctx)))
     ctx.stage("lattice-sweeps", _stage_sweeps, ctx)
@@ -1854,10 +1943,11 @@ def search(ctx, failures):
     ctx.run_cases(OPS["extend_dim"], _styled(ctx, "extend_dim", _extend_cases(ctx, 40)))
     _stage_paths(ctx)
     _stage_products(ctx)
+    _stage_dtype_fill(ctx)
     ctx.run_cases(OPS["history"], _history_cases(ctx, 700))
     _stage_sessions(ctx)
     ctx.run_cases(OPS["dim_step"], _step_cases(ctx))
-    ctx.run_cases(OPS["width_free"], _width_free_cases(ctx))
+    ctx.run_cases(OPS["width_free"], _free_typed(ctx.rng, _width_free_cases(ctx)))
     ctx.run_cases(OPS["extend_free"], _extend_free_cases(ctx))
     ctx.run_cases(OPS["crop_free"], _crop_free_cases(ctx))
     _stage_sweeps(ctx)
